@@ -50,10 +50,12 @@ impl Interpreter {
         })
     }
 
-    /// True when the elements cannot be the rest of a balanced script: a conditional opcode on its own among them, or a
-    /// conditional with a second OP_ELSE below
+    /// True when the elements cannot be the rest of a balanced script: a conditional opcode left on its own once the
+    /// conditionals still held as plain opcodes (what stands behind a top-level OP_RETURN is kept that way) are paired up,
+    /// or a conditional with a second OP_ELSE below
     fn is_unbalanced(bits: &[ScriptBit]) -> bool {
-        bits.iter().any(|bit| matches!(bit, ScriptBit::OpCode(OpCodes::OP_IF | OpCodes::OP_NOTIF | OpCodes::OP_ELSE | OpCodes::OP_ENDIF))) || Interpreter::has_repeated_else(bits)
+        let bits = Script::nest_conditionals_at(bits.to_vec(), false);
+        bits.iter().any(|bit| matches!(bit, ScriptBit::OpCode(OpCodes::OP_IF | OpCodes::OP_NOTIF | OpCodes::OP_ELSE | OpCodes::OP_ENDIF))) || Interpreter::has_repeated_else(&bits)
     }
 
     /// Where execution continues after an OP_RETURN. The elements of an input are its unlocking script followed by its
